@@ -6,7 +6,7 @@ from .c15 import mk_partition_case, parse_part, C15
 from .c02 import mk_select_case, mk_many_case, parse_sel, chk_term_sel, model_term_sel, LAYS
 from .c01 import mk_q_case, parse_q, C01
 from .c04 import mk_remove_case, C04, NANK
-from .c14 import mk_case as mk_nan_case, C14
+from .c14 import mk_case as mk_nan_case, mk_qsk_case, C14
 
 _c15, _c01, _c04, _c14 = C15(), C01(), C04(), C14()
 
@@ -16,7 +16,7 @@ class C03(Prop):
     imports = ["Run.RunSort", "Run.RunQuant", "Run.RunNan"]
     coq_batch = 250
     rule = ("every mutating public routine - partition_mut, get_from_sorted_mut, get_many_from_sorted_mut, quantile(s)_axis_mut, "
-            "quantile(s)_mut, remove_nan_mut, map_axis_skipnan_mut (quantile_axis_skipnan_mut through C14's check) - called on "
+            "quantile(s)_mut, quantile_axis_skipnan_mut, remove_nan_mut, map_axis_skipnan_mut - called on "
             "views into guarded parent allocations over the layout zoo (offset, stepped, reversed, permuted axes), 1-4 "
             "dimensions, every axis, with heavy duplicates; the ENTIRE parent buffer after the call is compared with the "
             "model's buffer; independent oracle: every cell outside the view is unchanged and every lane holds the multiset "
@@ -52,6 +52,9 @@ class C03(Prop):
             net = rng.choice(["f64", "oi32", "f32", "ou64"])
             nvals = [None if rng.chance(1, 3) else rng.range(1, 6) for _ in range(n)]
             yield self._tag(mk_nan_case("skipnan_axis", net, shape, nvals, lay, axis), "nan_axis")
+            qet = rng.choice(["f64", "oi32"])
+            qvals = [None if rng.chance(1, 3) else (rng.range(-6, 6) if qet == "oi32" else rng.range(-6, 6) * 0.25) for _ in range(n)]
+            yield self._tag(mk_qsk_case(qet, rng.below(5), shape, qvals, rng.choice([0.0, 0.3, 0.5, 1.0]), rng.choice(zoo(shape, rng, 4)), axis, ("P", rng.below(3))), "qsk")
         for _ in range(reps):
             n = rng.range(0, 16)
             pattern = [None if rng.chance(1, 3) else i + 1 for i in range(n)]
@@ -66,7 +69,7 @@ class C03(Prop):
         {"part": parse_part, "sel": parse_sel, "q": parse_q}.get(case.kind, lambda c: None)(case)
         if case.kind == "rm":
             _c04.parse(case)
-        elif case.kind == "nan_axis":
+        elif case.kind in ("nan_axis", "qsk"):
             _c14.parse(case)
 
     def _post(self, case):
@@ -83,7 +86,8 @@ class C03(Prop):
             return (st.get("b1") if st.get("tag") == "OK" else None), case.buf_k, [case.cells], case.cells
         st = case.obs[1]
         lanes = lane_positions(case.shape, case.axis)
-        return (st.get("post") if st.get("tag") == "OK" else None), case.buf_k, [[case.cells[p] for p in ln] for ln in lanes], case.cells
+        pre = case.buf_m if k == "qsk" else case.buf_k
+        return (st.get("post") if st.get("tag") == "OK" else None), pre, [[case.cells[p] for p in ln] for ln in lanes], case.cells
 
     def oracle(self, case):
         post, pre, lanes, cells = self._post(case)
